@@ -2,6 +2,20 @@
 
 package main
 
-import "verifharness/c03"
+import (
+	"math/rand"
 
-func init() { register("C03", "exploration", c03.Run) }
+	"verifharness/c03"
+	"verifharness/gen/samples"
+)
+
+func init() {
+	register("C03", "exploration", c03.Run)
+	for _, f := range []string{"docx", "odt", "xlsx", "pptx", "epub"} {
+		f := f
+		c03.ExtraDocs = append(c03.ExtraDocs, func(r *rand.Rand) ([]byte, string, string) {
+			s := samples.Make(f, r)
+			return s.Data, "." + f, s.Desc
+		})
+	}
+}
